@@ -8,12 +8,12 @@ import (
 
 // verifRecWriter records what send writes.
 type verifRecWriter struct {
-	total  uint64   // bytes written so far
-	writes int      // number of Write calls
-	hdr    []byte   // first 7 bytes, if the first write was the header
-	data   []byte   // all bytes (only kept while lengths are concrete and keep is set)
+	total  uint64 // bytes written so far
+	writes int    // number of Write calls
+	hdr    []byte // first 7 bytes, if the first write was the header
+	data   []byte // all bytes (only kept while lengths are concrete and keep is set)
 	keep   bool
-	failAt int      // fail the n-th write (1-based) if > 0
+	failAt int // fail the n-th write (1-based) if > 0
 }
 
 func (w *verifRecWriter) Write(p []byte) (int, error) {
